@@ -236,6 +236,20 @@ def _undo_self_destructuring(root):
     return rewrite(root)
 
 
+class _ClosureTable(dict):
+    """closure literal nodes by definition path; a key with an expansion-instance suffix (`path@3`, one per inlined copy of the
+    enclosing helper) finds the literal of its definition"""
+
+    def get(self, key, default=None):
+        if isinstance(key, str):
+            if key in self:
+                return self[key]
+            base = key.split("@")[0]
+            if base in self:
+                return self[base]
+        return default
+
+
 def _resugar(n):
     """Rewrite desugared for / while / ? into structured nodes, recursively (in place)."""
     if isinstance(n, list):
@@ -339,7 +353,7 @@ class Facts:
         self.crates = {}
         self.bodies = {}
         self.by_crate = {}
-        self.closures = {}
+        self.closures = _ClosureTable()
         for fn in files:
             p = os.path.join(fdir, fn)
             if not os.path.exists(p):
